@@ -2678,8 +2678,10 @@ fn regression_shapes() -> Vec<ShapeSpec> {
         v.push(s);
     }
     // everything at once
-    for p in [5u8, 10, 11, 15, 16] {
+    for p in [0u8, 1, 5, 10, 11, 15, 16] {
         let mut s = empty(p);
+        s.lock_time = 0x0102_0304;
+        s.expiry = 0x0a0b_0c0d;
         s.vin = tin(2, 107);
         s.vout = tout(2, 25);
         s.sprout = Some((1, 77));
